@@ -46,6 +46,7 @@ def gen_cases(rnd, n):
 
 def canon(lines):
     """keep the order of timestamps as emitted, sort the lines inside one timestamp (Go map iteration order)"""
+    lines = [l for l in lines if not l.startswith("held-mutated")]
     res = []
     i = 0
     while i < len(lines):
@@ -69,6 +70,11 @@ def canon(lines):
 
 
 def monitor(lines, out):
+    for l in out:
+        if l.startswith("held-mutated"):
+            _, was, now = l.split()
+            return "an emitted line changed after it was sent: %r read %r at the end of the case (the bucket's output is not stable)" % (bytes.fromhex(was), bytes.fromhex(now))
+    out = [l for l in out if not l.startswith("held-mutated")]
     cfg = lines[0].split()
     fn, interval, wait = cfg[1], int(cfg[2]), int(cfg[3])
     seen = set()
